@@ -244,6 +244,8 @@ def run_c07(ctx):
     # C++ tables is the known finding char-scalar-unsupported)
     items += [("char", _OPTS.replace("options {", "options {\n    LittleEndian = %s;" % le) +
                "root packet Quote {\n    u32 SeqNo,\n    char Side,\n    repeat char Flags,\n    string Note,\n}\n") for le in ("true", "false")]
+    am = pipeline.all_kinds_matrix()
+    items += [("safe", t) for t in (am if ctx.tier != "quick" else am[::4])]      # every field kind x option combination (quick: every fourth)
     items += [("inl", t) for t in INLINE_NAMES]
     items += [("len", LEN_TARGET % decl) for decl in ("string Body", "u32 Body", "char[4] Body", "repeat u16 Body", "repeat Leg Body", "repeat string Body")]
     texts = [t for _, t in items]
@@ -451,8 +453,10 @@ def keylist_rewrite(p, rng):
 def doc_rewrite(p, rng):
     for pk in p["packets"]:
         for f in all_fields(pk["fields"]):
-            if "doc" in f and f["kind"] in ("scalar", "fixed", "dyn"):
-                f["doc"] = None if f.get("doc") else "`added doc`"
+            if "doc" in f and f["kind"] in ("scalar", "fixed", "dyn", "metaref", "ref", "length", "checksum"):
+                # a doc is free text: the words of the DSL itself mean nothing inside it
+                f["doc"] = None if f.get("doc") else rng.choice(["`added doc`", "`was zchar[8] before v2, now char[] / repeat u8`",
+                                                                  "`root packet match x as y { 1 : A } @lengthOf(z) string`"])
     return p
 
 
